@@ -357,6 +357,7 @@ func runScenarios(dir string, w io.Writer, stats map[string]int) {
 		for attempt := 0; attempt < 5; attempt++ {
 			fmt.Fprintf(w, "{\"op\":\"begin\",\"hist\":%d,\"scenario\":%q,\"attempt\":%d}\n", i, sc.Name, attempt)
 			h := newHist(newRng(1), w)
+			h.scripted = true
 			ok, why := h.runScenario(&sc)
 			for k, v := range h.stats {
 				stats[k] += v
